@@ -7,7 +7,7 @@
     All theorems quantify over EVERY label list = every client program (any number of handlers,
     RunHandlers / Stop / Close / Run calls and threads) and every schedule. *)
 From WM Require Import Base.Prelude Base.Count RouterLife.Model RouterLife.Monitor RouterLife.Inv
-                       RouterLife.ProofsA RouterLife.ProofsB RouterLife.ProofsW RouterLife.SelfClose RouterLife.Local RouterLife.AcceptN RouterLife.Accept RouterLife.Theorems RouterLife.Witness.
+                       RouterLife.ProofsA RouterLife.ProofsB RouterLife.ProofsW RouterLife.SelfClose RouterLife.Term RouterLife.Local RouterLife.AcceptN RouterLife.Accept RouterLife.Theorems RouterLife.Witness.
 
 (** Running() closed => each of the [run_n] handlers registered when Run's RunHandlers took
     handlersLock is started and holds its (one) subscription - unless a Close BEFORE that Run
@@ -273,6 +273,30 @@ Theorem C10_monitor_simulation : forall (PW : Prop) s m l s' evs,
   step s l = Some (s', evs) -> MInv s' (mon_run m evs) /\ okbad PW (mon_run m evs).
 Proof. exact step_minv. Qed.
 Print Assumptions C10_monitor_simulation.
+
+(** Termination measure: EVERY internal label (Run, watcher, thread inside RunHandlers / Close / Stop / Run, handler
+    goroutine past its loop, handleClose, honouring subscriber, in-flight message) strictly decreases [mu K] in every
+    invariant state; [K] bounds the thread identifiers in use.  (All variants of the model.) *)
+Theorem C10_internal_steps_decrease_measure : forall K s l s' evs,
+  SInv s -> WInv s -> tbounded K s -> internal l = true -> step s l = Some (s', evs) -> mu K s' < mu K s.
+Proof. exact mu_decreases. Qed.
+Print Assumptions C10_internal_steps_decrease_measure.
+
+(** C10_self_close: in the repaired model, from any reachable state every run of internal labels has at most [mu K s]
+    steps - no fairness assumption - and when it cannot be extended while Run has started and every added handler's
+    goroutine is past Done (>= 1 handler), or the Run context is cancelled and all handlers follow it, then Run HAS
+    RETURNED.  (The premise is taken at the END of the run; that "all goroutines past Done" persists along internal
+    steps is not proved separately.  Run returns an error only after a failed Subscribe:
+    C10_run_error_only_after_failed_subscribe.) *)
+Theorem C10_self_close : forall f16 ls0 ls K s',
+  let s := run (rinit true true true f16) ls0 in
+  tbounded K s -> irun s ls = Some s' ->
+  length ls <= mu K s
+  /\ (~ can_move s' -> mainp s' <> RNone ->
+      (0 < nexth s' /\ all_past_done s') \/ (cctx s' = true /\ all_follow_ctx s') ->
+      exists ok, mainp s' = RDone ok).
+Proof. exact self_close_terminates. Qed.
+Print Assumptions C10_self_close.
 
 (** the hypotheses are satisfiable and the behaviour is non-trivial *)
 Example C10_running_reachable :
